@@ -55,7 +55,7 @@ MANIFEST = dict(
           "sunrise/sunset cases and 480000 synthetic bodies in thorough; one pass of the times_rise_transit_set "
           "iteration moves the transit by at most half a day, the returned transit lies within one day of the start "
           "estimate, and rise < transit < set holds without day wrap when the corrections differ by less than H0/360. Three defects of the implementation remain listed as "
-          "known findings (findings.d/C14.json); three others were fixed in /repo."),
+          "known findings (known_findings.json (property C14)); three others were fixed in /repo."),
     note=("Partial. Not carried by any theorem: convergence of the season loop and which of the two solutions it "
           "converges to; every numerical bound of the statement (agreement of Meeus' series with each other is "
           "empirical); convergence of the times_rise_transit_set passes (the rise/set corrections are unbounded near "
